@@ -12,6 +12,8 @@ EXTENDS Naturals, Sequences, FiniteSets, TLC, Json, IOUtils
 VARIABLE l
 Log == ndJsonDeserialize(IOEnv.TRACE)
 Chk(name, c) == IF c THEN TRUE ELSE PrintT(<<"REJECT", name, l>>) /\ FALSE
+\* marker of a recorded known finding (known_findings.json): the trace continues with the observed value
+Known(name) == PrintT(<<"KNOWN", name, l>>)
 IsEvent(k) == l <= Len(Log) /\ Log[l].e = k /\ l' = l + 1
 ToSet(s) == {s[i] : i \in DOMAIN s}
 Asc(s) == \A i \in 1..(Len(s) - 1) : s[i] < s[i + 1]
